@@ -8,12 +8,12 @@ Over the same model as C09 (`HC/Proto/H2Send.lean`), for every operation sequenc
   whatever the number of writes (`buffer_bounded`); the release rule used is the one *extracted* from
   `StreamBuffer.pop` (`Guards.bufferPopRelease`) and the wait rule the one extracted from `push`
   (`Guards.bufferPushCmp`), so a change to either re-opens these proofs;
-* **applied** — a sender parked in `push` whose event is clear sits on a buffer at or above nothing less than what the
-  send task will still come back for (`Wait`);
+* **applied** — a write that takes the buffer to the high-water mark does not return before the send task has popped
+  (`push_waits`), and a pop at an exhausted window does not release it (`zero_window_no_release`);
 * **released** — at quiescence a sender is still waiting only if its stream has bytes left and no credit
-  (`waiting_means_no_credit`); a reset stream's buffer is discarded by the send task's next pick and its sender's event
-  set (`reset_released`); after `handle(Closed)` every waiting sender's event is set and no new wait can begin
-  (`close_releases`);
+  (`waiting_means_no_credit`, `credit_releases`); a reset (by the client, or by the server abandoning the response)
+  releases the stream's sender at once (`reset_releases`); after `handle(Closed)` every waiting sender's wake-up is
+  enabled and no new wait can last (`close_releases`);
 * **isolated** — whether an op on another stream is enabled does not depend on a stream's waiting sender
   (`waiting_sender_isolated`).
 -/
@@ -25,20 +25,21 @@ def sizeOk (c : Nat) : Op → Prop
   | .push _ n => n ≤ c
   | _ => True
 
-/-- the four-state bound on a stream's buffer -/
-def Buf (c : Nat) (s : St) : Prop := ∀ i,
-  ((s.str i).pausedEv = true → (s.str i).buf < HIGH) ∧
-  ((s.str i).pusher = .idle → (s.str i).buf < HIGH + c) ∧
-  ((s.str i).pusher = .inDrain → (s.str i).buf < HIGH + c) ∧
-  ((s.str i).pusher = .inPush → (s.str i).buf < HIGH + 2 * c)
-
 theorem HIGH_pos : 0 < HIGH := by decide
+theorem LOW_pos : 0 < Consts.h2_BUFFER_LOW_WATER := by decide
 
-/-- as `upd_finish`, but the number of bytes `_send_data` takes stays an opaque `min buf (chunk …)` and the extracted
-    wait / release rules are unfolded -/
+/-- as `upd_finish`, with the extracted wait / release rules unfolded -/
 macro "upd_finish8" : tactic =>
-  `(tactic| (simp only [upd, Str.closeBuf, unblockAll, Guards.bufferPushCmp, Guards.bufferPopRelease, Guards.Cmp.eval, HIGH] at * <;>
+  `(tactic| (simp only [upd, Str.closeBuf, Str.discard, Str.gone, unblockAll, Guards.bufferPushCmp, Guards.bufferPopRelease, Guards.Cmp.eval,
+                        Guards.sendDataEnds, Guards.bufferComplete, HIGH] at * <;>
       (repeat' split) <;> (try subst_vars) <;> (try simp_all) <;> (first | done | omega | grind)))
+
+/-- the bound on a stream's buffer, by where its sender is -/
+def Buf (c : Nat) (s : St) : Prop := ∀ i,
+  ((s.str i).pausedEv = true → (s.str i).pusher ≠ .inPush → (s.str i).buf < HIGH) ∧
+  ((s.str i).pusher ≠ .inPush → (s.str i).buf < HIGH + c) ∧
+  ((s.str i).pusher = .inPush → (s.str i).buf < HIGH + 2 * c) ∧
+  ((s.str i).pusher = .inPush → (s.str i).pausedEv = true → (s.str i).buf < HIGH + c)
 
 theorem buf_step (c : Nat) (s s' : St) (o : Op) (h : Buf c s) (hp : sizeOk c o) (hs : step s o = some s') : Buf c s' := by
   intro j
@@ -49,6 +50,43 @@ theorem buf_step (c : Nat) (s s' : St) (o : Op) (h : Buf c s) (hp : sizeOk c o) 
       | exact hj
       | (have hall := h; unfold Buf at hall; simp only [sizeOk] at hp; upd_finish8)
 
+/-- a stream with a buffer was opened; the send task is inside `_send_data` only for an opened stream -/
+def Opened (s : St) : Prop := ∀ i, ((s.str i).hasBuf = true → (s.str i).opened = true) ∧ (s.task = .sending i → (s.str i).opened = true)
+
+theorem opened_step (s s' : St) (o : Op) (h : Opened s) (hs : step s o = some s') : Opened s' := by
+  intro j
+  have hj := h j
+  cases o <;> step_cases hs <;>
+    first
+      | exact hj
+      | (have hall := h; unfold Opened at hall; upd_finish)
+
+/-- while the send task waits for its DATA flush, an empty buffer of that stream has `_is_empty` set (the pop that emptied
+    it set it, and only a write clears it) -/
+def Sending (s : St) : Prop := ∀ i, s.task = .sending i → (s.str i).hasBuf = true → (s.str i).buf = 0 → (s.str i).emptyEv = true
+
+theorem sending_step (s s' : St) (o : Op) (h : Sending s) (ho : Opened s) (hs : step s o = some s') : Sending s' := by
+  intro j
+  have hj := h j
+  have hoj := ho j
+  cases o <;> step_cases hs <;>
+    first
+      | exact hj
+      | (have hall := h; have hallo := ho; unfold Sending at hall; unfold Opened at hallo; upd_finish)
+
+/-- an ended stream's `_is_empty` is set -/
+def FinE (s : St) : Prop := ∀ i, (s.str i).ended = true → (s.str i).emptyEv = true
+
+theorem finE_step (s s' : St) (o : Op) (h : FinE s) (hf : C09.Fin s) (hsd : Sending s) (hs : step s o = some s') : FinE s' := by
+  intro j
+  have hj := h j
+  have hfj := hf j
+  have hsj := hsd j
+  cases o <;> step_cases hs <;>
+    first
+      | exact hj
+      | (have hall := h; have hallf := hf; have halls := hsd; unfold FinE at hall; unfold C09.Fin at hallf; unfold Sending at halls; upd_finish)
+
 /-- a waiting sender whose event is clear still has a buffer the send task will come back to; a completed buffer never
     has a sender parked in `push` with a clear event -/
 def Wait (s : St) : Prop := ∀ i,
@@ -57,16 +95,21 @@ def Wait (s : St) : Prop := ∀ i,
   ((s.str i).pusher = .inDrain → (s.str i).emptyEv = false →
       (s.str i).hasBuf = true ∧ ((s.str i).buf > 0 ∨ (s.str i).blocked = false))
 
-theorem wait_step (s s' : St) (o : Op) (h : Wait s) (ht : Tree s) (hs : step s o = some s') : Wait s' := by
+theorem wait_step (s s' : St) (o : Op) (h : Wait s) (ht : Tree s) (he : Ending s) (hf : C09.Fin s) (hfe : FinE s)
+    (hs : step s o = some s') : Wait s' := by
   obtain ⟨ht1, ht2⟩ := ht
   intro j
   have hj := h j
+  have hej := he j
+  have hfj := hf j
+  have hfej := hfe j
   have hH := HIGH_pos
-  have hL : 0 < Consts.h2_BUFFER_LOW_WATER := by decide
+  have hL := LOW_pos
   cases o <;> step_cases hs <;>
     first
       | exact hj
-      | (have hall := h; unfold Wait at hall; upd_finish8)
+      | (have hall := h; have halle := he; have hallf := hf; have hallfe := hfe
+         unfold Wait at hall; unfold Ending at halle; unfold C09.Fin at hallf; unfold FinE at hallfe; upd_finish8)
 
 /-- after `handle(Closed)`: every buffer is complete with both events' waiters released, and stays so -/
 def Closed (s : St) : Prop := s.closed = true → ∀ i,
@@ -81,50 +124,96 @@ theorem closed_step (s s' : St) (o : Op) (h : Closed s) (hw : Wait s) (hs : step
       | exact h
       | (intro hc j; first | (have hj := h hc j; have hall := h hc; upd_finish) | (have hwj := hw j; unfold Wait at hw; upd_finish))
 
+/-- a reset stream's buffer (unless its application is inside the reset itself) is closed: complete, `_is_empty` set -/
+def RstC (s : St) : Prop := ∀ i, (s.str i).libClosed = true → (s.str i).hasBuf = true → (s.str i).pusher ≠ .inAbandon →
+  (s.str i).complete = true ∧ (s.str i).emptyEv = true
+
+theorem rstC_step (s s' : St) (o : Op) (h : RstC s) (hs : step s o = some s') : RstC s' := by
+  intro j
+  have hj := h j
+  cases o <;> step_cases hs <;>
+    first
+      | exact hj
+      | (have hall := h; unfold RstC at hall; upd_finish)
+
+/-- a sender waiting on a reset stream has its event set -/
+def Rel (s : St) : Prop := ∀ i, (s.str i).libClosed = true →
+  ((s.str i).pusher = .inPush → (s.str i).pausedEv = true) ∧ ((s.str i).pusher = .inDrain → (s.str i).emptyEv = true)
+
+theorem rel_step (s s' : St) (o : Op) (h : Rel s) (hw : Wait s) (hrc : RstC s) (hs : step s o = some s') : Rel s' := by
+  intro j
+  have hj := h j
+  have hwj := hw j
+  have hrj := hrc j
+  cases o <;> step_cases hs <;>
+    first
+      | exact hj
+      | (have hall := h; have hallw := hw; have hallr := hrc; unfold Rel at hall; unfold Wait at hallw; unfold RstC at hallr; upd_finish8)
+
 structure Inv (c : Nat) (s : St) : Prop where
   base : C09.Inv s
+  opened : Opened s
+  sending : Sending s
+  finE : FinE s
   buf : Buf c s
   wait : Wait s
   closed : Closed s
+  rstc : RstC s
+  rel : Rel s
 
 def opOk8 (c : Nat) (s : St) (o : Op) : Prop := opOk s o ∧ sizeOk c o
 
 theorem inv_init (c : Nat) (cw : Int) (mf : Nat) (h : 0 < mf) : Inv c (init cw mf) := by
-  refine ⟨C09.inv_init cw mf h, ?_, ?_, ?_⟩ <;> simp [init, Buf, Wait, Closed, HIGH_pos] <;> (have := HIGH_pos; omega)
+  refine ⟨C09.inv_init cw mf h, ?_, ?_, ?_, ?_, ?_, ?_, ?_, ?_⟩ <;>
+    simp [init, Opened, Sending, FinE, Buf, Wait, Closed, RstC, Rel, HIGH_pos] <;> (have := HIGH_pos; omega)
 
 theorem inv_step (c : Nat) (s s' : St) (o : Op) (h : Inv c s) (hp : opOk8 c s o) (hs : step s o = some s') : Inv c s' :=
-  ⟨C09.inv_step s s' o h.base hp.1 hs, buf_step c s s' o h.buf hp.2 hs, wait_step s s' o h.wait h.base.tree hs,
-   closed_step s s' o h.closed h.wait hs⟩
+  ⟨C09.inv_step s s' o h.base hp.1 hs, opened_step s s' o h.opened hs, sending_step s s' o h.sending h.opened hs,
+   finE_step s s' o h.finE h.base.fin h.sending hs, buf_step c s s' o h.buf hp.2 hs,
+   wait_step s s' o h.wait h.base.tree h.base.ending h.base.fin h.finE hs, closed_step s s' o h.closed h.wait hs,
+   rstC_step s s' o h.rstc hs, rel_step s s' o h.rel h.wait h.rstc hs⟩
 
 theorem inv_run (c : Nat) (ops : List Op) : ∀ (s s' : St), Inv c s → allQ (opOk8 c) s ops → runOk s ops = some s' → Inv c s' :=
   run_invariant (Inv c) (opOk8 c) (inv_step c) ops
 
+/-- the states of all runs in which no single application write exceeds `c` bytes -/
+def Reachable8 (c : Nat) (s : St) : Prop := ∃ cw mf ops, 0 < mf ∧ allQ (opOk8 c) (init cw mf) ops ∧ runOk (init cw mf) ops = some s
+
+theorem reachable8_inv (c : Nat) (s : St) (h : Reachable8 c s) : Inv c s := by
+  obtain ⟨cw, mf, ops, hmf, hok, hr⟩ := h
+  exact inv_run c ops _ s (inv_init c cw mf hmf) hok hr
+
 /-- **bounded**: however many writes the application makes and however large the response, what the server holds for
     a stream is below `HIGH + 2·c` (`c` = the largest single write) — in every reachable state -/
-theorem buffer_bounded (c : Nat) (cw : Int) (mf : Nat) (hmf : 0 < mf) (ops : List Op) (s : St)
-    (hok : allQ (opOk8 c) (init cw mf) ops) (hr : runOk (init cw mf) ops = some s) (i : Nat) :
-    (s.str i).buf < HIGH + 2 * c := by
-  have hI := (inv_run c ops _ s (inv_init c cw mf hmf) hok hr).buf i
+theorem buffer_bounded (c : Nat) (s : St) (hr : Reachable8 c s) (i : Nat) : (s.str i).buf < HIGH + 2 * c := by
+  have hI := (reachable8_inv c s hr).buf i
   cases hp : (s.str i).pusher
-  · have := hI.2.1 hp; omega
-  · exact hI.2.2.2 hp
-  · have := hI.2.2.1 hp; omega
+  · have := hI.2.1 (by simp [hp]); omega
+  · exact hI.2.2.1 hp
+  · have := hI.2.1 (by simp [hp]); omega
+  · have := hI.2.1 (by simp [hp]); omega
 
 /-- **applied**: a write that takes the buffer to the high-water mark or above does not return until the send task has
-    popped (the extracted `push` comparison, with the event clear) -/
+    popped (the extracted `push` comparison) -/
 theorem push_waits (s s' : St) (i n : Nat) (hs : step s (.push i n) = some s')
     (hb : (s.str i).hasBuf = true) (ht : (s.str i).inTree = true) (hc : (s.str i).complete = false)
-    (hp : (s.str i).pausedEv = false) (hh : HIGH ≤ (s.str i).buf + n) : (s'.str i).pusher = .inPush := by
+    (hh : HIGH ≤ (s.str i).buf + n) : (s'.str i).pusher = .inPush := by
   step_cases hs <;> simp_all [upd, Guards.bufferPushCmp, Guards.Cmp.eval] <;> omega
+
+/-- **no release at an exhausted window**: a pop that takes nothing from a buffer still at or above the high-water mark
+    (the window is zero) leaves `_paused` as it was — the sender keeps waiting (the extracted `pop` rule) -/
+theorem zero_window_no_release (s s' : St) (i : Nat) (hs : step s (.pick i) = some s')
+    (hb : (s.str i).hasBuf = true) (hl : (s.str i).libClosed = false) (hz : chunk s i = 0) (hh : HIGH ≤ (s.str i).buf) :
+    (s'.str i).pausedEv = (s.str i).pausedEv ∧ (s'.str i).buf = (s.str i).buf ∧ (s'.str i).pusher = (s.str i).pusher := by
+  have hH := HIGH_pos
+  step_cases hs <;> simp_all [upd, Guards.bufferPopRelease, Guards.sendDataEnds, Guards.bufferComplete, HIGH, Str.discard] <;> omega
 
 /-- **released when pressure abates / never forever**: with the send task quiescent on an open connection, a sender
     that is still waiting (its event clear) has bytes buffered on a stream that is not reset and has no credit -/
-theorem waiting_means_no_credit (c : Nat) (cw : Int) (mf : Nat) (hmf : 0 < mf) (ops : List Op) (s : St)
-    (hok : allQ (opOk8 c) (init cw mf) ops) (hr : runOk (init cw mf) ops = some s)
-    (hq : s.task = .parked ∧ s.hasData = false) (hc : s.closed = false) (i : Nat)
+theorem waiting_means_no_credit (c : Nat) (s : St) (hr : Reachable8 c s) (hq : taskQuiescent s) (hc : s.closed = false) (i : Nat)
     (hw : ((s.str i).pusher = .inPush ∧ (s.str i).pausedEv = false) ∨ ((s.str i).pusher = .inDrain ∧ (s.str i).emptyEv = false)) :
     (s.str i).hasBuf = true ∧ (s.str i).buf > 0 ∧ (s.str i).libClosed = false ∧ ((s.str i).window ≤ 0 ∨ s.connWin ≤ 0) := by
-  have hI := inv_run c ops _ s (inv_init c cw mf hmf) hok hr
+  have hI := reachable8_inv c s hr
   have hW := hI.wait i
   have hbuf : (s.str i).hasBuf = true ∧ ((s.str i).buf > 0 ∨ (s.str i).blocked = false) := by
     rcases hw with ⟨h1, h2⟩ | ⟨h1, h2⟩
@@ -138,77 +227,88 @@ theorem waiting_means_no_credit (c : Nat) (cw : Int) (mf : Nat) (hmf : 0 < mf) (
   have hlc : (s.str i).libClosed = false := by
     cases hl : (s.str i).libClosed
     · rfl
-    · rcases hI.base.rstU i hbuf.1 hl with h | h
-      · simp [hbl] at h
-      · simp [hc] at h
+    · have := hI.rel i hl
+      rcases hw with ⟨h1, h2⟩ | ⟨h1, h2⟩
+      · simp [this.1 h1] at h2
+      · simp [this.2 h1] at h2
   refine ⟨hbuf.1, hpos, hlc, ?_⟩
-  rcases hI.base.stall i hbuf.1 hbl with h | h | h | h
+  rcases hI.base.stall i hbuf.1 hbl with h | h | h | h | h
   · omega
   · exact Or.inl h
   · exact Or.inr h
   · simp [hc] at h
+  · have := (hI.base.fin i h).2.1; omega
 
-/-- **released on reset**: once the send task is quiescent again after a reset, the stream's buffer is gone and any
-    sender that was waiting on it can return (its event is set) -/
-theorem reset_released (c : Nat) (cw : Int) (mf : Nat) (hmf : 0 < mf) (ops : List Op) (s : St)
-    (hok : allQ (opOk8 c) (init cw mf) ops) (hr : runOk (init cw mf) ops = some s)
-    (hq : s.task = .parked ∧ s.hasData = false) (hc : s.closed = false) (i : Nat) (hl : (s.str i).libClosed = true) :
-    (s.str i).hasBuf = false ∧ ((s.str i).pusher = .inPush → (s.str i).pausedEv = true) ∧
-    ((s.str i).pusher = .inDrain → (s.str i).emptyEv = true) := by
-  have hI := inv_run c ops _ s (inv_init c cw mf hmf) hok hr
-  have hnb : (s.str i).hasBuf = false := by
-    cases hb : (s.str i).hasBuf
-    · rfl
-    · have hbl : (s.str i).blocked = true := hI.base.sleep hq.1 hq.2 i (hI.base.tree.1 i hb)
-      rcases hI.base.rstU i hb hl with h | h
-      · simp [hbl] at h
-      · simp [hc] at h
-  have hW := hI.wait i
-  refine ⟨hnb, fun hp => ?_, fun hp => ?_⟩
+/-- **released on credit**: once the send task is quiescent on an open connection, a stream that has credit has no sender
+    left waiting with its event clear — the wake-up of a sender that is still parked is enabled -/
+theorem credit_releases (c : Nat) (s : St) (hr : Reachable8 c s) (hq : taskQuiescent s) (hc : s.closed = false) (i : Nat)
+    (hw : 0 < (s.str i).window) (hcw : 0 < s.connWin) :
+    ((s.str i).pusher = .inPush → (step s (.pushWake i)).isSome = true) ∧
+    ((s.str i).pusher = .inDrain → (step s (.drainWake i)).isSome = true) := by
+  refine ⟨fun hp => ?_, fun hp => ?_⟩
   · cases he : (s.str i).pausedEv
-    · have := (hW.1 hp he).1; simp [hnb] at this
-    · rfl
+    · have := (waiting_means_no_credit c s hr hq hc i (Or.inl ⟨hp, he⟩)).2.2.2; omega
+    · simp [step, hp, he]
   · cases he : (s.str i).emptyEv
-    · have := (hW.2 hp he).1; simp [hnb] at this
-    · rfl
+    · have := (waiting_means_no_credit c s hr hq hc i (Or.inr ⟨hp, he⟩)).2.2.2; omega
+    · simp [step, hp, he]
+
+/-- **released on reset**: in every state in which the stream is reset — by the client's RST_STREAM or by the server
+    abandoning the response — a sender waiting on it can return: its wake-up is enabled -/
+theorem reset_releases (c : Nat) (s : St) (hr : Reachable8 c s) (i : Nat) (hl : (s.str i).libClosed = true) :
+    ((s.str i).pusher = .inPush → (step s (.pushWake i)).isSome = true) ∧
+    ((s.str i).pusher = .inDrain → (step s (.drainWake i)).isSome = true) := by
+  have hI := (reachable8_inv c s hr).rel i hl
+  exact ⟨fun hp => by simp [step, hp, hI.1 hp], fun hp => by simp [step, hp, hI.2 hp]⟩
+
+/-- … and the reset itself is what releases it: right after `rst i` the stream's waiting sender has its event set -/
+theorem rst_sets_events (s s' : St) (i : Nat) (hs : step s (.rst i) = some s') (hb : (s.str i).hasBuf = true) :
+    (s'.str i).pausedEv = true ∧ (s'.str i).emptyEv = true ∧ (s'.str i).buf = 0 ∧ (s'.str i).blocked = false := by
+  simp only [step, Option.some.injEq] at hs
+  subst hs
+  simp [upd, Str.closeBuf, hb]
 
 /-- **released on close**: in every state after `handle(Closed)` every waiting sender's event is set (its wake-up is
-    enabled), and a further write or end-of-body does not wait -/
-theorem close_releases (c : Nat) (cw : Int) (mf : Nat) (hmf : 0 < mf) (ops : List Op) (s : St)
-    (hok : allQ (opOk8 c) (init cw mf) ops) (hr : runOk (init cw mf) ops = some s) (hc : s.closed = true) (i : Nat) :
+    enabled), and a further write or end-of-body does not wait for long: its wake-up is enabled at once -/
+theorem close_releases (c : Nat) (s : St) (hr : Reachable8 c s) (hc : s.closed = true) (i : Nat) :
     ((s.str i).pusher = .inPush → (step s (.pushWake i)).isSome = true) ∧
     ((s.str i).pusher = .inDrain → (step s (.drainWake i)).isSome = true) ∧
     (∀ n s', step s (.push i n) = some s' → (s'.str i).pusher = .idle) ∧
-    (∀ s', step s (.end_ i) = some s' → (s'.str i).pusher = .idle) := by
-  have hI := (inv_run c ops _ s (inv_init c cw mf hmf) hok hr).closed hc i
+    (∀ s', step s (.end_ i) = some s' → (s'.str i).pusher = .inDrain → (s'.str i).emptyEv = true) := by
+  have hI := (reachable8_inv c s hr).closed hc i
   refine ⟨fun hp => ?_, fun hp => ?_, fun n s' hs => ?_, fun s' hs => ?_⟩
   · simp [step, hp, hI.2.1 hp]
   · simp [step, hp, hI.2.2 hp]
   · step_cases hs <;> simp_all [upd]
   · step_cases hs <;> simp_all [upd]
-    all_goals (split <;> simp_all)
 
 /-- the same state with stream `i`'s sender made to wait (or not) -/
 def setPusher (s : St) (i : Nat) (p : PPc) : St := { s with str := upd s.str i { (s.str i) with pusher := p } }
 
 /-- **a waiting send blocks no other stream**: whether any op concerning another stream, the send task or the reader is
     enabled does not depend on whether stream `i`'s sender is waiting -/
-theorem waiting_sender_isolated (s : St) (i j k : Nat) (w : Int) (p : PPc) (hij : j ≠ i) :
-    ∀ o ∈ [Op.open_ j w, .push j k, .pushWake j, .end_ j, .drainWake j, .pick j, .consume, .park, .wake, .exit,
-           .winStream j k, .winConn k, .settings w, .rst j, .prio j, .abandon j, .closed],
+theorem waiting_sender_isolated (s : St) (i j k : Nat) (w : Int) (p : PPc) (hij : j ≠ i) (hik : k ≠ i) :
+    ∀ o ∈ [Op.open_ j w, .push j k, .pushWake j, .end_ j, .drainWake j, .pick j, .pickRaise j, .sent j, .endSent j, .park, .wake, .exit,
+           .winStream j k, .winConn k, .settings w, .maxFrame k, .rst j, .prio j k, .abandon j, .abandonFin j, .closed],
       (step (setPusher s i p) o).isSome = (step s o).isSome := by
+  have hc : chunk (setPusher s i p) j = chunk s j := by simp [chunk, setPusher, upd, hij]
+  have hj : (setPusher s i p).str j = s.str j := by simp [setPusher, upd, hij]
+  have hk : (setPusher s i p).str k = s.str k := by simp [setPusher, upd, hik]
+  have h1 : (setPusher s i p).task = s.task := rfl
+  have h2 : (setPusher s i p).closed = s.closed := rfl
+  have h3 : (setPusher s i p).hasData = s.hasData := rfl
   intro o ho
   simp only [List.mem_cons, List.mem_nil_iff, or_false] at ho
-  rcases ho with h | h | h | h | h | h | h | h | h | h | h | h | h | h | h | h | h <;> subst h <;>
-    simp only [step, setPusher, upd, hij, if_false, chunk] <;> (repeat' split) <;> simp_all
+  rcases ho with h | h | h | h | h | h | h | h | h | h | h | h | h | h | h | h | h | h | h | h | h <;> subst h <;>
+    simp only [step, hc, hj, hk, h1, h2, h3] <;> (repeat' split) <;> first | rfl | simp_all
 
 -- non-vacuity: zero stream window, two 20000-byte writes: the second waits; a window update, two picks and it returns
 example :
-    (runOk (init 65535 16384) [.open_ 1 0, .push 1 20000, .push 1 20000, .pick 1, .consume, .park]).map
+    (runOk (init 65535 16384) [.open_ 1 0, .push 1 20000, .push 1 20000, .pick 1, .park]).map
       (fun s => ((s.str 1).buf, (s.str 1).pusher, (s.str 1).pausedEv, s.task)) = some (40000, .inPush, false, .parked) := by decide
 example :
-    (runOk (init 65535 16384) [.open_ 1 0, .push 1 20000, .push 1 20000, .pick 1, .consume, .park, .winStream 1 30000, .wake,
-        .pick 1, .pick 1, .pushWake 1]).map
+    (runOk (init 65535 16384) [.open_ 1 0, .push 1 20000, .push 1 20000, .pick 1, .park, .winStream 1 30000, .wake,
+        .pick 1, .sent 1, .pick 1, .sent 1, .pushWake 1]).map
       (fun s => ((s.str 1).buf, (s.str 1).pusher, (s.str 1).sent)) = some (10000, .idle, 30000) := by decide
 
 end HC.Props.C08
